@@ -687,8 +687,8 @@ func (x *SafeAnyBSlice[E]) BinarySearchFunc(e E, f func(E, E) int) (int, bool) {
 }
 
 func (x *SafeAnyBSlice[E]) Filter(f func(E) bool) {
-	x.rwl.RLock()
-	defer x.rwl.RUnlock()
+	x.rwl.Lock()
+	defer x.rwl.Unlock()
 	x.es.Filter(f)
 }
 
